@@ -213,7 +213,7 @@ CLAIMS = {
              "evaluation, every finite-difference mode and quadratic regularisers, compose/scale-translate/2-D rotation. Nine "
              "streams compare autograd of the real operation with the model gradient (a detach/round/in-place overwrite changes "
              "autograd although forward values stay the same). Multi-step expv, logv, MI, LCC, 3-D rotations and transform stacks "
-             "have no model gradient: exploration only (partial). Eight defects repaired by fix: commits; five known-finding keys remain (disp(other grid) of non-rigid models and ImageBatch.sample_grid cut the gradient by rounding / re-wrapping).",
+             "have no model gradient: exploration only (partial). All three defects found (F-20a rounding, F-20b/c re-wrapping cuts the autograd graph; 13 keys) were repaired by fix: commits.",
         ref="5 C20"),
 }
 
